@@ -43,10 +43,10 @@ MECHANISMS = [
 REQUIRED_MONITORS = ['records_vs_model', 'label_vs_model', 'label_sweep', 'reiteration', 'path_vs_stream',
                      'contract:FileLogicalData.invariant', 'contract:FileLogicalData.add_bytes', 'contract:FileLogicalData.seal',
                      'contract:FileRead.seek_next_header', 'contract:FileRead.read_full_logical_data']
-MIN_NONTRIVIAL = {'quick': 3000, 'thorough': 400000}
+MIN_NONTRIVIAL = {'quick': 20000, 'thorough': 1200000}
 TIMEOUT_S = {'quick': 300, 'thorough': 3000}
 NSHARDS = 16
-N_RANDOM = {'quick': 6400, 'thorough': 160000}          # random files, all shards together
+N_RANDOM = {'quick': 3200, 'thorough': 160000}          # random files, all shards together
 SCOPE = {
     # L_all: every composition for payload length <= L_all; L_k: compositions into <= K parts for lengths up to L_k;
     # L_zero: cuts with zero-length segments (<= 3 segments); L_pair: both payloads 0..L_pair in <= 3 segments; L_enc: encrypted
@@ -213,6 +213,8 @@ class Checker:
             cl.append('visible-record-length-20')
         rec.case(data, model.is_nontrivial(), classes=cl, sample=sample)
         rec.mon('records_vs_model')
+        # drawn before the reader runs, so that the random stream never depends on what the reader returned
+        k = self.ctx.rng.randrange(0, len(model.records) + 1) if extra_history else 0
         try:
             fr = File.FileRead(io.BytesIO(data))
             with fr:
@@ -226,7 +228,6 @@ class Checker:
                                                     if (e[4], e[5]) == (r.vr_position, r.lrsh_position)))
                 if extra_history and ok:
                     # operation history on one reader: abandoned partial pass, then a complete second pass
-                    k = self.ctx.rng.randrange(0, len(events) + 1)
                     part = self.read_events(fr, limit=k) if k else []
                     again = self.read_events(fr)
                     rec.mon('reiteration')
